@@ -99,6 +99,12 @@ class LoggingEvaluator(PythonEvaluator):
         # `it` yields the unsatisfied conditions lazily; each evaluation goes through
         # `_evaluate_code`, where it is logged with the owner recorded here.
         self._vp_cur = [kind, oid, enc_event(event), 0]
+        w, slot = _slot_of(self)
+        if w is not None and slot in w.eager_slots:
+            # an evaluator that returns the unsatisfied conditions as a list, as the documentation of
+            # `Evaluator.evaluate_*` describes them (used for interpreters that ignore contracts: nothing is
+            # to be evaluated there at all)
+            return list(it)
         return it
 
     def evaluate_preconditions(self, obj, event=None):
@@ -171,6 +177,27 @@ class ScriptClock(Clock):
         return self.value
 
 
+class OuterFirstInterpreter(Interpreter):
+    """the documented variation of the semantics: outer-first / source-state (docs/execution.rst), obtained by
+    overriding the selection hook with the flag it provides for that"""
+
+    def _select_transitions(self, event, states, *, eventless_first=True, inner_first=True):
+        return super()._select_transitions(event, states, eventless_first=eventless_first, inner_first=False)
+
+
+class TickClock(Clock):
+    """A clock that advances by one unit each time it is read (a deterministic stand-in for a wall clock: time
+    passes between two readings).  Who reads it, and how often, shows in every later reading."""
+
+    def __init__(self, value=0):
+        self.value = value
+
+    @property
+    def time(self):
+        self.value += 1
+        return self.value
+
+
 class ListenerFailure(Exception):
     def __init__(self, lid):
         super().__init__(lid)
@@ -187,6 +214,12 @@ def _slot_of(evaluator):
     return w, slot
 
 
+class Snap:
+    """an observation encoded when it was made"""
+    def __init__(self, j):
+        self.j = j
+
+
 class ImplWorld:
     """Mirror of `Sismic.World`: slots = real interpreters."""
 
@@ -199,6 +232,11 @@ class ImplWorld:
         self.listener_spec = []
         self.callbacks = []
         self.cbfuns = {}                # one callable object per recording callable (bound twice = the same object)
+        self.eager_slots = set()        # interpreters whose evaluator materialises the unsatisfied conditions
+        self.outer_first = False        # interpreters follow the outer-first variation
+        self.tick_clock = False         # interpreters get a TickClock, which the ops do not set
+        self.running_clock = False      # interpreters get a playing SimulatedClock over a scripted real time
+        self.real = 0
         self.deliveries = None          # when a list: global order in which the recording callables were called
         self.log = Log()
         self.oldlog = []
@@ -228,7 +266,8 @@ class ImplWorld:
         lst = self._cb(k)
         if k not in self.cbfuns:
             def record(event):
-                lst.append(event)
+                # what the callable was given, as it was when it was called
+                lst.append(Snap(enc_event(event)))
                 if self.deliveries is not None:
                     self.deliveries.append(k)
             self.cbfuns[k] = record
@@ -274,7 +313,7 @@ class ImplWorld:
 
     def world_json(self):
         w = {'slots': [self.slot_json(i) for i in range(len(self.slots))],
-             'callbacks': [[enc_event(e) for e in cb] for cb in self.callbacks]}
+             'callbacks': [[e.j if isinstance(e, Snap) else enc_event(e) for e in cb] for cb in self.callbacks]}
         if self.anomalies:
             w['anomalies'] = list(self.anomalies)
         if self.deliveries is not None:
@@ -319,10 +358,21 @@ class ImplWorld:
         slot = len(self.slots)
         if self.clock_mover:
             clock = ScriptClock(t0)
+        elif self.tick_clock:
+            clock = TickClock(t0)
+        elif self.running_clock:
+            # a SimulatedClock that is *playing*: `sismic.clock.clock.time` is scripted (see run_case), real time
+            # and statechart time coincide
+            self.real = t0
+            clock = SimulatedClock()
+            clock.time = t0
+            clock.start()
         else:
             clock = SimulatedClock()
             clock.time = t0
         ok = True
+        if ignore:
+            self.eager_slots.add(slot)
         try:
             # the same non-empty initial context is given as the same dict object to every interpreter
             # of the case (a client reusing its configuration mapping): nobody may write into it
@@ -331,9 +381,10 @@ class ImplWorld:
             if ctx0 and key not in shared:
                 shared[key] = ({k: v for k, v in ctx0}, {k: v for k, v in ctx0})
             initial = shared[key][0] if ctx0 else {}
-            it = Interpreter(self.charts[ci], evaluator_klass=make_evaluator(self, slot),
-                             initial_context=initial, clock=clock,
-                             ignore_contract=ignore)
+            klass = OuterFirstInterpreter if self.outer_first else Interpreter
+            it = klass(self.charts[ci], evaluator_klass=make_evaluator(self, slot),
+                       initial_context=initial, clock=clock,
+                       ignore_contract=ignore)
             self._ctx_written = bool(ctx0) and shared[key][0] != shared[key][1]
         except CodeEvaluationError:
             # preamble failed: the constructor raised, there is no interpreter
@@ -368,8 +419,13 @@ class ImplWorld:
 
     def op_queue(self, i, e):
         # ({'list': [...]} = a fresh list object: a mutable event parameter)
-        self.slots[i].queue(Event(e['ev'], **{k: (list(v['list']) if isinstance(v, dict) and 'list' in v else v)
-                                              for k, v in e['data']}))
+        def dec(v):
+            if isinstance(v, dict) and 'list' in v:
+                return list(v['list'])
+            if isinstance(v, dict) and 'ev' in v:
+                return Event(v['ev'], **{k: dec(x) for k, x in v['data']})
+            return v
+        self.slots[i].queue(Event(e['ev'], **{k: dec(v) for k, v in e['data']}))
         return None
 
     def op_setvar(self, i, n, v):
@@ -377,7 +433,11 @@ class ImplWorld:
         return None
 
     def _set_clock(self, it, clock):
-        if isinstance(it.clock, ScriptClock):
+        if self.running_clock:
+            self.real = clock
+        elif self.tick_clock:
+            pass            # it runs by itself
+        elif isinstance(it.clock, ScriptClock):
             it.clock.value = clock
         elif it.clock.time != clock:
             it.clock.time = clock
@@ -438,6 +498,17 @@ class ImplWorld:
 
     def op_bindcb(self, i, k):
         l = self.slots[i].bind(self._cbfun(k))
+        return self._add_listener(i, ('bindcb', k), l)
+
+    def op_bindmut(self, i, k):
+        """bind a recording callable that, having recorded what it was given, writes into the parameters of that
+        event (a relay adding a hop count): its own copy, nobody else's business"""
+        cb = self._cbfun(k)
+
+        def f(event):
+            cb(event)
+            event.data['hops'] = event.data.get('hops', 0) + 1
+        l = self.slots[i].bind(f)
         return self._add_listener(i, ('bindcb', k), l)
 
     def op_binddet(self, i, k, lid):
@@ -536,7 +607,19 @@ def run_case(case, charts, clock_mover=False):
     w.record_old = bool(case.get('record_old'))
     if case.get('record_deliveries'):
         w.deliveries = []
+    w.tick_clock = bool(case.get('tick_clock'))
+    w.outer_first = bool(case.get('outer_first'))
     obs = []
+    if case.get('running_clock'):
+        import sismic.clock.clock as cc
+        w.running_clock = True
+        real_time, cc.time = cc.time, (lambda: w.real)
+        try:
+            for op in case['ops']:
+                obs.append(w.op(op))
+        finally:
+            cc.time = real_time
+        return {'obs': obs}, w
     for op in case['ops']:
         obs.append(w.op(op))
     return {'obs': obs}, w
